@@ -93,12 +93,15 @@ theorem denE_fewerFaults (a b : Sys P) (h : FewerFaults a b) :
         rw [denE_fewerFaults a b h n z w hw, ← h.2.2.2.2.2.1]; exact hd
 end
 
-theorem cons_fewerFaults (a b : Sys P) (h : FewerFaults a b) (c : Cache P) (hc : Cons a c) : Cons b c := by
-  intro k x g hk
-  obtain ⟨hg, n, hn⟩ := hc k x g hk
+theorem cons_fewerFaults (a b : Sys P) (h : FewerFaults a b) (hck : a.ckey = b.ckey) (c : Cache P)
+    (hc : Cons a c) : Cons b c := by
+  intro v p x g hk
+  have hs : b.slot (v, p) = a.slot (v, p) := by simp [Sys.slot, hck]
+  rw [hs] at hk
+  obtain ⟨hg, n, hn⟩ := hc v p x g hk
   exact ⟨hg, n, den_fewerFaults a b h n _ _ x hn⟩
 
-theorem gclean_requests (sys : Sys P) (n : Nat) : ∀ (ks : List (Node P)) (s : St P) (rs : List Res) (s' : St P),
+theorem gclean_requests (sys : Sys P) (hk : SlotCoherent sys) (n : Nat) : ∀ (ks : List (Node P)) (s : St P) (rs : List Res) (s' : St P),
     GClean sys s.cache → requests sys n s ks = some (rs, s') → GClean sys s'.cache := by
   intro ks
   induction ks with
@@ -128,14 +131,14 @@ theorem gclean_requests (sys : Sys P) (n : Nat) : ∀ (ks : List (Node P)) (s : 
           obtain ⟨r3, g3, s3⟩ := res3
           rw [hrun] at hr
           simp only [Option.some.injEq, Prod.mk.injEq] at hr
-          have hcl := (run_clean sys n s k.1 k.2 r3 g3 s3 hc hrun).1
+          have hcl := (run_clean sys hk n s k.1 k.2 r3 g3 s3 hc hrun).1
           rw [← hr.2.2]
           split
-          · intro j x hj
-            rw [(purge_spec s3 j).2.2] at hj
+          · intro v p x hj
+            rw [(purge_spec sys s3 (sys.slot (v, p))).2.2] at hj
             split at hj
             · cases hj
-            · exact hcl j x hj
+            · exact hcl v p x hj
           · exact hcl
 
 end OFCore.Engine
